@@ -5,10 +5,13 @@ mod explore;
 mod rfcref;
 mod tables;
 
+mod c01;
 mod c02;
+mod c03;
 mod c04;
 mod c05;
 mod c06;
+mod c08;
 mod c10;
 mod codec;
 mod c13;
@@ -80,10 +83,13 @@ fn main() {
     }
 
     let (run, rep): (fn(&Ctx) -> i32, ReplayFn) = match id.as_str() {
+        "C01" => (c01::run, c01::replay),
         "C02" => (c02::run, c02::replay),
+        "C03" => (c03::run, c03::replay),
         "C04" => (c04::run, c04::replay),
         "C05" => (c05::run, c05::replay),
         "C06" => (c06::run, c06::replay),
+        "C08" => (c08::run, c08::replay),
         "C10" => (c10::run, c10::replay),
         "C13" => (c13::run, c13::replay),
         "C14" => (c14::run, c14::replay),
